@@ -29,7 +29,11 @@ partial def parseTree : List Char → Option (FNode × List Char)
   | 'R' :: r => let (d, r') := takeHex r []; some (.leaf d, r')      -- RawNode leaf
   | 'W' :: r => let (d, r') := takeHex r []; some (.leaf d, r')      -- dag-pb leaf of type Raw
   | 'N' :: r =>
-    let (fs, r1) := takeNat r 0
+    let (fs, r0) := takeNat r 0
+    -- `{hex}` = Data an internal node carries next to its links: the reader skips it
+    let r1 := match r0 with
+      | '{' :: r' => ((takeHex r' []).2).drop 1
+      | _ => r0
     match r1 with
     | '[' :: ']' :: r2 => some (.node fs [], r2)
     | '[' :: r2 => (parseKids r2 []).map fun (cs, r3) => (.node fs cs, r3)
@@ -56,10 +60,18 @@ def step (c : Option Reader) (line : String) : Option Reader × String :=
   match (line.trimAscii.toString.splitOn " ").filter (· ≠ "") with
   | ["case", n] => (none, s!"case {n}")
   | ["end"] => (none, "end")
-  | ["tree", d] =>
+  | "tree" :: d :: _ =>        -- an optional third token sets mode/mtime on the root (not part of the model)
     match parseTree d.toList with
     | some (t, []) => (some (newReader t), s!"ok size={size t} ws={if wellSized t then 1 else 0}")
     | _ => (c, "bad-tree")
+  -- fetch failures / Close / non-file roots: checked by the Go-side monitor against c09_refines_faulty's statement
+  | "faults" :: _ => (c, "checked")
+  | "fread" :: _ => (c, "checked")
+  | "fctxread" :: _ => (c, "checked")
+  | "fwriteto" :: _ => (c, "checked")
+  | "fseek" :: _ => (c, "checked")
+  | "fclose" :: _ => (c, "checked")
+  | "openbad" :: _ => (c, "checked")
   | ["import", _, _, _, _, _, _, _, d] =>      -- the DAG the real importer produced, as dumped by the harness
     match parseTree d.toList with
     | some (t, []) => (some (newReader t), s!"ok size={size t} ws={if wellSized t then 1 else 0}")
